@@ -18,7 +18,7 @@ from tartiflette import Directive, Scalar, create_engine
 PROPERTY = "C12"
 LEVEL = "model_checking"
 ASSUMPTIONS = ["E5's schema validator (vf/model/schema_validate.py) certifies the injected violation"]
-BUDGET_S = {"quick": 120, "thorough": 1800}
+BUDGET_S = {"quick": 600, "thorough": 1800}
 DEPTH = {"quick": 1, "thorough": 2}
 
 BASE_SDL = """
